@@ -3,6 +3,7 @@ import GoBT.Driver.Sighash
 import GoBT.Driver.C13
 import GoBT.Driver.C14
 import GoBT.Driver.Fee
+import GoBT.Driver.Json
 open GoBT GoBT.Driver
 
 def dispatch (op : String) (args : List String) (impl : String) : Answer :=
@@ -27,6 +28,16 @@ def dispatch (op : String) (args : List String) (impl : String) : Answer :=
   | "C11.signed" => c11Signed args impl
   | "C10.change" => c10Change args impl
   | "C12.fund" => c12Fund args impl
+  | "C09.njtx" => c09NodeTx args impl
+  | "C09.rawjson" => noPanicOnly impl
+  | "C09.alloc" => c09Alloc args impl
+  | "C09.input" => c09Input args impl
+  | "C09.output" => c09Output args impl
+  | "C09.reader" => c09Reader args impl
+  | "C16.amt" => c16Amt args impl
+  | "C16.tx" => c16Tx args impl
+  | "C16.out" => c16Obj args impl
+  | "C16.utxo" => c16Obj args impl
   | _ => ("unknown-op", "n/a")
 
 partial def loop (h : IO.FS.Stream) (out : IO.FS.Stream) : IO Unit := do
